@@ -231,7 +231,7 @@ func (e *sqlEval) format(f string, args []ast.Expr) []sqlTextItem {
 	return out
 }
 
-// constMethod: a call to a method whose body is `return "const"`.
+// constMethod: a call to a method all of whose returns are `return "const"`.
 func (e *sqlEval) constMethod(c *ast.CallExpr) (string, bool) {
 	sel, ok := c.Fun.(*ast.SelectorExpr)
 	if !ok {
@@ -244,11 +244,32 @@ func (e *sqlEval) constMethod(c *ast.CallExpr) (string, bool) {
 	for _, f := range e.pkg.Syntax {
 		for _, d := range f.Decls {
 			fd, ok := d.(*ast.FuncDecl)
-			if !ok || e.info.Defs[fd.Name] != fo || fd.Body == nil || len(fd.Body.List) != 1 {
+			if !ok || e.info.Defs[fd.Name] != fo || fd.Body == nil {
 				continue
 			}
-			if ret, ok := fd.Body.List[0].(*ast.ReturnStmt); ok && len(ret.Results) == 1 {
-				return e.constStr(ret.Results[0])
+			// every return statement of the method (closures aside) returns the same
+			// constant: whatever else the body does (logging, ...) cannot change it
+			val, n, same := "", 0, true
+			ast.Inspect(fd.Body, func(nd ast.Node) bool {
+				switch x := nd.(type) {
+				case *ast.FuncLit:
+					return false
+				case *ast.ReturnStmt:
+					if len(x.Results) != 1 {
+						same = false
+						return true
+					}
+					s, ok := e.constStr(x.Results[0])
+					if !ok || (n > 0 && s != val) {
+						same = false
+					}
+					val = s
+					n++
+				}
+				return true
+			})
+			if same && n > 0 {
+				return val, true
 			}
 		}
 	}
@@ -274,6 +295,17 @@ func (e *sqlEval) fragmentChoice(fd *ast.FuncDecl) *SQLChoice {
 		alt.Case = strings.TrimSpace(alt.Case)
 		hasText := false
 		for _, st := range cc.Body {
+			// case X: return "text", []any{...}, nil
+			if rs, ok := st.(*ast.ReturnStmt); ok && len(rs.Results) >= 2 {
+				if s, ok := e.constStr(rs.Results[0]); ok && s != "" {
+					if cl, ok := rs.Results[1].(*ast.CompositeLit); ok {
+						alt.Text = s
+						alt.Args = append(alt.Args, cl.Elts...)
+						hasText = true
+					}
+				}
+				continue
+			}
 			as, ok := st.(*ast.AssignStmt)
 			if !ok || len(as.Lhs) != 1 || len(as.Rhs) != 1 {
 				continue
@@ -596,6 +628,12 @@ func (e *sqlEval) appendCall(o types.Object, c *ast.CallExpr) {
 		for _, a := range c.Args[1:] {
 			if s, ok := e.constStr(a); ok {
 				e.curAlt.Text += s
+			} else if ch, ok := e.choices[e.obj(a)]; ok && e.curRep != nil && len(e.curRep.Alts) == 0 {
+				// the fragment (and its arguments) come from a fragment function: one
+				// alternative of the repetition per case of that function
+				for _, ca := range ch.Alts {
+					e.curRep.Alts = append(e.curRep.Alts, &SQLAlt{Text: ca.Text, Args: append([]ast.Expr{}, ca.Args...), Case: ca.Case})
+				}
 			} else {
 				e.fail("non-constant SQL fragment appended to a list")
 			}
@@ -609,6 +647,9 @@ func (e *sqlEval) appendCall(o types.Object, c *ast.CallExpr) {
 		return
 	}
 	for _, a := range c.Args[1:] {
+		if _, fromChoice := e.choices[e.obj(a)]; fromChoice && c.Ellipsis.IsValid() && e.curRep != nil {
+			continue // args = append(args, fragmentArgs...): carried by the alternatives of the fragment function
+		}
 		if e.curAlt != nil {
 			e.curAlt.Args = append(e.curAlt.Args, a)
 		} else {
